@@ -19,6 +19,8 @@ pub mod c13;
 pub mod c14;
 pub mod c15;
 pub mod c16;
+pub mod c17;
+pub mod c18;
 pub mod c19;
 
 thread_local! {
@@ -75,6 +77,8 @@ pub fn run(a: &Args) {
         "c14" => c14::run(a),
         "c15" => c15::run(a),
         "c16" => c16::run(a),
+        "c17" => c17::run(a),
+        "c18" => c18::run(a),
         "c19" => c19::run(a),
         other => panic!("unknown property {}", other),
     }
